@@ -281,6 +281,9 @@ def plan(doc, tier, seed):
         if doc.get('slow'):
             # long skeletons / several maps per run: alternate instead of running everything on every input
             runs = [('x12n', 'ahx'[doc['id'] % 3], cs, ''), ('reader', '', '', '')] + ([ctx] if doc['id'] % 4 < 2 else [])
+            if doc.get('inseg'):
+                # the mutation is inside a segment: the two sinks that render segments element by element both see it
+                runs = [('x12n', 'h', cs, ''), ('x12n', 'x', other, '')] + runs[1:] + ([('x12n', 'a', cs, '')] if doc['id'] % 3 == 0 else [])
         else:
             runs = [('x12n', 'a', cs, ''), ('x12n', 'h', other, ''), ('x12n', 'x', cs, ''), ('reader', '', '', ''), ctx]
         if doc['id'] % 4 == 0:
@@ -343,7 +346,7 @@ def _tlc_job(args):
     return res
 
 
-ALLOPS = ['del', 'dup', 'swap', 'trunc', 'truncmid', 'retag', 'orphan', 'num', 'longseg', 'longele', 'subs', 'blank', 'drop', 'lead', 'trail', 'empty']
+ALLOPS = ['del', 'dup', 'swap', 'trunc', 'truncmid', 'retag', 'orphan', 'num', 'longseg', 'longele', 'subs', 'blank', 'drop', 'lead', 'trail', 'empty', 'cutsub']
 
 
 def generate(chk, tier, seed, consts, fx):
@@ -399,7 +402,8 @@ def generate(chk, tier, seed, consts, fx):
                     continue
                 seen.add(text)
                 docs.append({'text': text, 'xclass': e['c'], 'xlater': e['later'], 'loops': loops, 'source': 'mutate:' + name,
-                             'label': mut_label(e['m']), 'nmut': len(e['m']), 'full': not e['m'], 'slow': big or name == 'multiple_trn'})
+                             'label': mut_label(e['m']), 'nmut': len(e['m']), 'full': not e['m'], 'slow': big or name == 'multiple_trn',
+                             'inseg': any(m['op'] in ('longele', 'subs', 'cutsub', 'num', 'blank', 'drop', 'trail', 'longseg') for m in e['m'])})
             if n0 != 1:
                 raise vlib.MachineryError('TLC did not emit the unmutated skeleton of %s exactly once' % name)
     finally:
